@@ -55,7 +55,8 @@ def run_tlc(spec, cfg, workers=16, dump=None, simulate=None, depth=None, seed=No
     res = TLCResult()
     meta = scratch_dir("tlcmeta_")
     cfgpath = cfg if os.path.isabs(cfg) else os.path.join(CFG_DIR, cfg)
-    cmd = ["java", "-XX:+UseParallelGC", "-Xss16m"]
+    # (TLC unpacks its module jars into java.io.tmpdir: keep that inside the run's own scratch directory)
+    cmd = ["java", "-XX:+UseParallelGC", "-Xss16m", "-Djava.io.tmpdir=" + meta]
     if heap:
         # a bounded heap matters: with the JVM default (1/4 of RAM) page-faulting of the young
         # generation made small runs 4-10x slower on this machine
